@@ -330,8 +330,9 @@ fn lock_spec() -> CheckSpec {
             let mut rng = Rng::new(rs);
             let lp = crate::lockrace::gen_plan(&mut rng.fork("lock"), tier == Tier::Thorough);
             let mut knobs = crate::plan::Knobs::gen(&mut rng.fork("knobs"));
-            knobs.max_memtable_size = 4096;
-            let sched = gen_strategy(&mut rng.fork("sched"), 400, true);
+            knobs.max_memtable_size = *rng.fork("mem").pick(&[700usize, 1024, 2048, 4096]);
+            knobs.max_file_size = 1024;
+            let sched = gen_strategy(&mut rng.fork("sched"), 1500, true);
             Case {
                 engine: Engine::LockRace,
                 run_seed: rs,
@@ -510,9 +511,9 @@ pub fn spec_for(prop: &str) -> Option<CheckSpec> {
         "C11" => mixed(hist_spec("C11", Profile::C11, "50% hist / 30% conc / 20% crash-image runs (one evaluation per crash point: the directory of every recovered image must equal the needed set right after open - orphan tables, half-written temp files and superseded manifests are reclaimed - and recovery must never fail with missing files). conc clause: reader tasks hold iterators (pinned table set known from verif_shape before/after creation; unknown pins counted as pin_unknown) while writers flush and compact with table-cache capacity 2; a remove of a pinned table in the SimFs log during the iterator's lifetime, or any read failing with NotFound, is a violation. hist clause: one evaluation = one simulated history; the directory listing of SimFs is compared with {CURRENT, LOCK, current manifest, active WAL, tables of the current version} right after every successful open and at quiescent points where no iterator is alive and one reclamation opportunity (flush/compaction end) has passed since the last iterator release; files pending between a release and the next opportunity are counted as lazy_pending_files, not violations; any read failing with NotFound is a violation.", &["l0_ge4_over_l1_ge2"], (20_000, 1_500_000)), vec![(50, Variant::Hist(Profile::C11)), (30, Variant::Conc(ConcProfile::C11)), (20, Variant::Crash)]),
         "C09" => mixed(
             hist_spec("C09", Profile::C09, "one evaluation = one simulated run, fault-free filesystem: 25% single-client histories incl. every descriptor kind, 35% concurrent runs with writers, readers, compact_range, every descriptor kind (incl. Stats), snapshot take/release, flush, and close while background work may still be in flight, 40% the concurrent workloads of C05/C03/C11/C06. Violations: shuttle reports a deadlock (all live tasks blocked) or a re-entrant lock acquisition; any task of an open database panics (the orphan worker of a failed open is exempt); a background error is recorded; a run exceeds 2M scheduler steps and still does under a fair round-robin schedule (otherwise counted as unfair_schedule_timeouts).", &["freeze_fired"], (30_000, 2_000_000)),
-            vec![(25, Variant::Hist(Profile::C09)), (35, Variant::Conc(ConcProfile::C09)), (10, Variant::Conc(ConcProfile::C05)), (10, Variant::Conc(ConcProfile::C03)), (10, Variant::Conc(ConcProfile::C11)), (10, Variant::Conc(ConcProfile::C06))],
+            vec![(25, Variant::Hist(Profile::C09)), (35, Variant::Conc(ConcProfile::C09)), (5, Variant::Conc(ConcProfile::C05Big)), (10, Variant::Conc(ConcProfile::C05)), (10, Variant::Conc(ConcProfile::C03)), (10, Variant::Conc(ConcProfile::C11)), (10, Variant::Conc(ConcProfile::C06))],
         ),
-        "C05" => conc_spec("C05", ConcProfile::C05, "one evaluation = one simulated concurrent run: 2-5 client tasks x 5-60 operations over 2-8 keys (unique value tags) with 512 B-4 KiB memtables so that rotation, flush and compaction run continuously; schedulers Random / Sticky / PCT(depth 1-4) / Freeze (parks a task at an unlocked_fair exit, filesystem call or hook until the others are blocked or a step budget expires). The invoke/return history (global event sequence numbers) is checked per key against a register model by a memoised WGL search, with the final quiesced state as a last read; phantom reads, reads from the future and write errors are violations. Histories above the checker budget are counted as unchecked, never as violations.", &["freeze_fired", "group_commit_merged_writers"], (30_000, 2_000_000)),
+        "C05" => mixed(conc_spec("C05", ConcProfile::C05, "85% standard / 15% big-write runs (3-5 clients x 2-6 operations with 70-300 KB values so that queued writers hit the group-commit size limits). Standard: one evaluation = one simulated concurrent run: 2-5 client tasks x 5-60 operations over 2-8 keys (unique value tags) with 512 B-4 KiB memtables so that rotation, flush and compaction run continuously; schedulers Random / Sticky / PCT(depth 1-4) / Freeze (parks a task at an unlocked_fair exit, filesystem call or hook until the others are blocked or a step budget expires). The invoke/return history (global event sequence numbers) is checked per key against a register model by a memoised WGL search, with the final quiesced state as a last read; phantom reads, reads from the future and write errors are violations. Histories above the checker budget are counted as unchecked, never as violations.", &["freeze_fired", "group_commit_merged_writers"], (30_000, 2_000_000)), vec![(85, Variant::Conc(ConcProfile::C05)), (15, Variant::Conc(ConcProfile::C05Big))]),
         "C06" => conc_spec("C06", ConcProfile::C06, "one evaluation = one simulated concurrent run in which 1-3 writer tasks each own a row group of 2-8 keys and repeatedly apply one batch writing the same fresh tag to every key of the group (sometimes deleting all, sometimes padded beyond the memtable budget) while 1-2 reader tasks take snapshots / iterators and read whole groups; H4 puts a scheduling point after every single memtable insert, SimFs before and after the WAL append. Oracle: in every snapshot-consistent read all keys of a group carry the same tag.", &["freeze_fired"], (30_000, 2_000_000)),
         "C12" => log_spec(),
         "C08" => iofault_spec(),
